@@ -100,6 +100,7 @@ Theorem acc_row_2d (m : cmap) nr nc :
                       (acc_id m)).
 Proof.
   intros Hs Hl Hne. unfold acc_row, rc_shape. rewrite Hs. cbn [bind fst snd].
+  rewrite Hl, Nat.eqb_refl. cbn [negb].
   rewrite mask_filter_map, (mask_filter_seq_ids _ _ Hl). fold (acc_id m).
   rewrite match_ne by (destruct (acc_id m); [congruence | discriminate]).
   f_equal. rewrite map_map. rewrite bbox_nth by (simpl; lia). cbn [fst].
@@ -116,6 +117,7 @@ Theorem acc_col_2d (m : cmap) nr nc :
                       (acc_id m)).
 Proof.
   intros Hs Hl Hne. unfold acc_col, rc_shape. rewrite Hs. cbn [bind fst snd].
+  rewrite Hl, Nat.eqb_refl. cbn [negb].
   rewrite mask_filter_map, (mask_filter_seq_ids _ _ Hl). fold (acc_id m).
   rewrite match_ne by (destruct (acc_id m); [congruence | discriminate]).
   f_equal. rewrite map_map. rewrite bbox_nth by (simpl; lia). cbn [fst].
@@ -143,7 +145,8 @@ Proof.
   { intros f. destruct (acc_id m); [congruence | discriminate]. }
   split; intros Hx; unfold acc_row, acc_col, rc_shape; rewrite Hs.
   - destruct (acc_x m) eqn:Ex; [|congruence]. cbn [bind fst snd].
-    rewrite Nat.mul_1_l, !mask_filter_map, (mask_filter_seq_ids _ _ Hl). fold (acc_id m).
+    rewrite Nat.mul_1_l, Hl, Nat.eqb_refl. cbn [negb]. rewrite <- Hl at 1 2.
+    rewrite !mask_filter_map, (mask_filter_seq_ids _ _ Hl). fold (acc_id m).
     rewrite !match_ne by apply Hmn. rewrite !map_map. split; f_equal.
     + assert (E : map (fun p => p / n) (acc_id m) = zero).
       { apply map_ext_in. intros p Hp. apply Nat.div_small. apply Hids; assumption. }
@@ -153,7 +156,8 @@ Proof.
         apply Nat.mod_small. apply Hids; assumption. }
       rewrite E. apply map_ext_in. intros p Hp. rewrite Nat.mod_small by (apply Hids; assumption). reflexivity.
   - rewrite Hx. cbn [bind fst snd].
-    rewrite Nat.mul_1_r, !mask_filter_map, (mask_filter_seq_ids _ _ Hl). fold (acc_id m).
+    rewrite Nat.mul_1_r, Hl, Nat.eqb_refl. cbn [negb]. rewrite <- Hl at 1 2.
+    rewrite !mask_filter_map, (mask_filter_seq_ids _ _ Hl). fold (acc_id m).
     rewrite !match_ne by apply Hmn. rewrite !map_map. split; f_equal.
     1: { assert (E : map (fun p => p / 1) (acc_id m) = acc_id m).
          { rewrite <- (map_id (acc_id m)) at 2. apply map_ext. intros p. apply Nat.div_1_r. }
@@ -264,7 +268,7 @@ Proof.
   assert (Hm : forall (X : res (list nat * list (option V))),
              match s with [] => Err TypeError | _ :: _ => X end = X)
     by (intros X; destruct s; [congruence | reflexivity]).
-  rewrite Hm. cbv zeta. cbn [andb orb].
+  rewrite Hm. cbv zeta. cbn [andb orb]. rewrite Hi, Nat.eqb_refl. cbn [negb].
   change (count (ind m)) with (length ids). rewrite Hlv, Nat.eqb_refl. cbn [orb negb].
   rewrite data_slices_bbox by assumption. cbn [bind]. fold s ids bb.
   unfold zbox at 1. rewrite map_length, Hlb, Nat.eqb_refl. cbn [negb].
